@@ -22,7 +22,7 @@
 #define C7_SLOTS 4
 typedef struct { OggVorbis_File vf; memsrc ms; int open; long seq[64];
   /* cross-lap expectation for the next reads: audio that followed the old position, landing position, lap length */
-  int lap_valid,lap_oldlink,lap_n,lap_ch1,lap_hs,lap_oldunk,lap_newlink,stale; long lap_k; ogg_int64_t lap_oldpos,lap_newpos; } c7_handle;
+  int lap_valid,lap_oldlink,lap_n,lap_ch1,lap_hs,lap_oldunk,lap_newlink,stale,lap_tail_ok; long lap_k; long played; /* samples read since the last seek/open/toggle */ ogg_int64_t lap_oldpos,lap_newpos; } c7_handle;
 extern const float *_vorbis_window_get(int n);
 static c7_handle c7h[C7_SLOTS];
 static buf_t c7_phys={0,0,0};
@@ -171,6 +171,7 @@ static int c7_check_lap(c7_handle *H,int hs,float **pcm,long r,int bs,ogg_int64_
           ogg_int64_t relo=((H->lap_oldpos-Lo->start)>>hs)+li; float ws=1.-wd,sv;
           if(H->lap_oldunk||relo<0){ unknown=1; continue; }
           if(relo>=Lo->frames){                              /* past the end of the old link: the decoder's overlap half */
+            if(!H->lap_tail_ok){ unknown=1; continue; }        /* the old handle got to the end by a seek: its overlap half is not that of a play-through */
             if(!Lo->tail_built)c7_build_tail(hs,H->lap_oldlink);
             if(!Lo->tail||relo-Lo->frames>=Lo->tailn){ unknown=1; continue; }
             sv=Lo->tail[(relo-Lo->frames)*Lo->ch+c];
@@ -477,7 +478,7 @@ static int c07_main(int argc,char **argv){
     }else if((!strcmp(op,"open")||!strcmp(op,"test"))&&n>=4){
       int s=atoi(tok[1])%C7_SLOTS; c7_handle *H=&c7h[s]; int seekable=atoi(tok[2]); int rc;
       if(H->open){ ov_clear(&H->vf); H->open=0; }
-      ms_init(&H->ms,c7_phys.p,c7_phys.n,seekable); H->ms.chunk=atol(tok[3]); memset(H->seq,0,sizeof H->seq); H->lap_valid=0; H->stale=0;
+      ms_init(&H->ms,c7_phys.p,c7_phys.n,seekable); H->ms.chunk=atol(tok[3]); memset(H->seq,0,sizeof H->seq); H->lap_valid=0; H->stale=0; H->played=0;
       if(n>=7){ H->ms.fault_at=atol(tok[4]); H->ms.fault_kind=atoi(tok[5]); H->ms.fault_persist=atoi(tok[6]); }
       rc=(op[0]=='o')?ov_open_callbacks(&H->ms,&H->vf,NULL,0,ms_callbacks(seekable)):ov_test_callbacks(&H->ms,&H->vf,NULL,0,ms_callbacks(seekable));
       printf("%s rc=%s closed=%d",op,ovname(rc),H->ms.closed);
@@ -508,6 +509,7 @@ static int c07_main(int argc,char **argv){
       else if(!strcmp(op,"read")&&n>=3){
         float **pcm; int bs=-7; ogg_int64_t t0=ov_pcm_tell(vf); int hs=ov_halfrate_p(vf)>0; long r=ov_read_float(vf,&pcm,atoi(tok[2]),&bs); ogg_int64_t t1=ov_pcm_tell(vf);
         int ok=-1;
+        if(r>0)H->played+=r;
         if(r>0){
           if(vf->seekable&&H->lap_valid&&H->lap_hs==hs) ok=c7_check_lap(H,hs,pcm,r,bs,t0);
           else if(vf->seekable) ok=c7_check(hs,pcm,r,bs,t0);
@@ -519,12 +521,13 @@ static int c07_main(int argc,char **argv){
         putchar('\n');
       }else if(!strcmp(op,"readi")&&n>=6){
         char *buf=malloc(atoi(tok[2])+16); int bs=-7; ogg_int64_t t0=ov_pcm_tell(vf); long r=ov_read(vf,buf,atoi(tok[2]),atoi(tok[3]),atoi(tok[4]),atoi(tok[5]),&bs);
+        H->played=0; /* (frame count not tracked here) */
         if(r>0&&!vf->seekable&&bs>=0&&bs<64){ vorbis_info *vi=ov_info(vf,-1); if(vi&&atoi(tok[4])>0) H->seq[bs]+=r/(atoi(tok[4])*vi->channels); }
         printf("readi rc=%s link=%d t0=%lld t1=%lld\n",ovname(r),r>0?bs:-1,(long long)t0,(long long)ov_pcm_tell(vf)); free(buf);
       }else if(!strcmp(op,"rawseekto")&&n>=3){
         /* raw seek to the byte position handle <src> stands at right now (the no-op case of _seek_helper when src is the handle itself) */
         c7_handle *S=&c7h[atoi(tok[2])%C7_SLOTS]; ogg_int64_t pos=S->open?ov_raw_tell(&S->vf):0; int rc;
-        H->lap_valid=0; H->stale=0;
+        H->lap_valid=0; H->stale=0; H->played=0;
         rc=ov_raw_seek(vf,pos);
         printf("rawseekto rc=%s tell=%lld state=%d link=%d\n",ovname(rc),(long long)ov_pcm_tell(vf),vf->ready_state,vf->ready_state>=STREAMSET?vf->current_link:-1);
       }else if(!strncmp(op,"rawseek",7)||!strncmp(op,"pcmseekpage",11)||!strncmp(op,"pcmseek",7)){
@@ -532,12 +535,13 @@ static int c07_main(int argc,char **argv){
         ogg_int64_t oldpos=ov_pcm_tell(vf); int oldlink=(vf->seekable&&vf->ready_state>=STREAMSET)?vf->current_link:-1; int ohs=ov_halfrate_p(vf)>0;
         int on=(oldlink>=0&&vf->vi)?(vorbis_info_blocksize(vf->vi+oldlink,0)>>(1+ohs)):0; int och=(oldlink>=0&&vf->vi)?vf->vi[oldlink].channels:0;
         int pend=H->lap_valid||H->stale; /* the audio at the old position is itself still cross-faded, or the decoder is ahead of the position (after ov_crosslap) */
-        H->lap_valid=0;
+        int tail_ok=(oldlink>=0&&vf->vi&&H->played>=2*vorbis_info_blocksize(vf->vi+oldlink,1)); /* the last two blocks were decoded in sequence: the overlap half is that of a plain play-through */
+        H->lap_valid=0; H->played=0;
         if(!strncmp(op,"rawseek",7)) rc=lap?ov_raw_seek_lap(vf,pos):ov_raw_seek(vf,pos);
         else if(!strncmp(op,"pcmseekpage",11)) rc=lap?ov_pcm_seek_page_lap(vf,pos):ov_pcm_seek_page(vf,pos);
         else rc=lap?ov_pcm_seek_lap(vf,pos):ov_pcm_seek(vf,pos);
         if(lap&&rc==0&&vf->ready_state>=STREAMSET&&on>0){ int nn=vorbis_info_blocksize(vf->vi+vf->current_link,0)>>(1+ohs);
-          H->lap_valid=1; H->lap_oldpos=oldpos; H->lap_oldlink=oldlink; H->lap_newpos=ov_pcm_tell(vf); H->lap_n=on<nn?on:nn; H->lap_ch1=och; H->lap_hs=ohs; H->lap_oldunk=pend; H->lap_newlink=vf->current_link; H->lap_k=vorbis_synthesis_pcmout(&vf->vd,NULL); }
+          H->lap_valid=1; H->lap_oldpos=oldpos; H->lap_oldlink=oldlink; H->lap_newpos=ov_pcm_tell(vf); H->lap_n=on<nn?on:nn; H->lap_ch1=och; H->lap_hs=ohs; H->lap_oldunk=pend; H->lap_tail_ok=tail_ok; H->lap_newlink=vf->current_link; H->lap_k=vorbis_synthesis_pcmout(&vf->vd,NULL); }
         if(rc==OV_EINVAL||rc==OV_ENOSEEK)H->lap_valid=pend&&!H->stale; else H->stale=0; /* refused: nothing moved */
         printf("%s rc=%s tell=%lld state=%d link=%d\n",op,ovname(rc),(long long)ov_pcm_tell(vf),vf->ready_state,vf->ready_state>=STREAMSET?vf->current_link:-1);
       }else if(!strncmp(op,"timeseek",8)){
@@ -545,14 +549,15 @@ static int c07_main(int argc,char **argv){
         ogg_int64_t oldpos=ov_pcm_tell(vf); int oldlink=(vf->seekable&&vf->ready_state>=STREAMSET)?vf->current_link:-1; int ohs=ov_halfrate_p(vf)>0;
         int on=(oldlink>=0&&vf->vi)?(vorbis_info_blocksize(vf->vi+oldlink,0)>>(1+ohs)):0; int och=(oldlink>=0&&vf->vi)?vf->vi[oldlink].channels:0;
         int pend=H->lap_valid||H->stale; /* the audio at the old position is itself still cross-faded, or the decoder is ahead of the position (after ov_crosslap) */
-        H->lap_valid=0;
+        int tail_ok=(oldlink>=0&&vf->vi&&H->played>=2*vorbis_info_blocksize(vf->vi+oldlink,1));
+        H->lap_valid=0; H->played=0;
         if(page) rc=lap?ov_time_seek_page_lap(vf,t):ov_time_seek_page(vf,t); else rc=lap?ov_time_seek_lap(vf,t):ov_time_seek(vf,t);
         if(lap&&rc==0&&vf->ready_state>=STREAMSET&&on>0){ int nn=vorbis_info_blocksize(vf->vi+vf->current_link,0)>>(1+ohs);
-          H->lap_valid=1; H->lap_oldpos=oldpos; H->lap_oldlink=oldlink; H->lap_newpos=ov_pcm_tell(vf); H->lap_n=on<nn?on:nn; H->lap_ch1=och; H->lap_hs=ohs; H->lap_oldunk=pend; H->lap_newlink=vf->current_link; H->lap_k=vorbis_synthesis_pcmout(&vf->vd,NULL); }
+          H->lap_valid=1; H->lap_oldpos=oldpos; H->lap_oldlink=oldlink; H->lap_newpos=ov_pcm_tell(vf); H->lap_n=on<nn?on:nn; H->lap_ch1=och; H->lap_hs=ohs; H->lap_oldunk=pend; H->lap_tail_ok=tail_ok; H->lap_newlink=vf->current_link; H->lap_k=vorbis_synthesis_pcmout(&vf->vd,NULL); }
         if(rc==OV_EINVAL||rc==OV_ENOSEEK)H->lap_valid=pend&&!H->stale; else H->stale=0;
         printf("%s rc=%s tell=%lld state=%d link=%d\n",op,ovname(rc),(long long)ov_pcm_tell(vf),vf->ready_state,vf->ready_state>=STREAMSET?vf->current_link:-1);
       }else if(!strcmp(op,"halfrate")&&n>=3){
-        int rc=ov_halfrate(vf,atoi(tok[2])); H->lap_valid=0; printf("halfrate rc=%s p=%d tell=%lld\n",ovname(rc),ov_halfrate_p(vf),(long long)ov_pcm_tell(vf));
+        int rc=ov_halfrate(vf,atoi(tok[2])); H->lap_valid=0; H->played=0; printf("halfrate rc=%s p=%d tell=%lld\n",ovname(rc),ov_halfrate_p(vf),(long long)ov_pcm_tell(vf));
       }else if(!strcmp(op,"crosslap")&&n>=3){
         c7_handle *H2=&c7h[atoi(tok[2])%C7_SLOTS]; int rc;
         ogg_int64_t oldpos=ov_pcm_tell(vf); int h1=ov_halfrate_p(vf)>0;
@@ -563,7 +568,7 @@ static int c07_main(int argc,char **argv){
           H->lap_valid=0; H->stale=1; } /* its lapping audio has been consumed without the position moving: see the C19 notes */
         if(rc==0&&H2!=H&&vf->seekable&&H2->vf.seekable&&vf->ready_state>=STREAMSET&&H2->vf.ready_state>=STREAMSET&&h1==(ov_halfrate_p(&H2->vf)>0)){
           int on=vorbis_info_blocksize(vf->vi+vf->current_link,0)>>(1+h1), nn=vorbis_info_blocksize(H2->vf.vi+H2->vf.current_link,0)>>(1+h1);
-          H2->lap_valid=1; H2->lap_oldpos=oldpos; H2->lap_oldlink=vf->current_link; H2->lap_newpos=ov_pcm_tell(&H2->vf); H2->lap_n=on<nn?on:nn; H2->lap_ch1=vf->vi[vf->current_link].channels; H2->lap_hs=h1; H2->lap_newlink=H2->vf.current_link; H2->lap_k=vorbis_synthesis_pcmout(&H2->vf.vd,NULL); }
+          H2->lap_valid=1; H2->lap_oldpos=oldpos; H2->lap_oldlink=vf->current_link; H2->lap_newpos=ov_pcm_tell(&H2->vf); H2->lap_n=on<nn?on:nn; H2->lap_ch1=vf->vi[vf->current_link].channels; H2->lap_hs=h1; H2->lap_tail_ok=(H->played>=2*vorbis_info_blocksize(vf->vi+vf->current_link,1)); H2->lap_newlink=H2->vf.current_link; H2->lap_k=vorbis_synthesis_pcmout(&H2->vf.vd,NULL); }
         printf("crosslap rc=%s\n",ovname(rc));
       }else if(!strcmp(op,"clear")){
         int rc=ov_clear(vf); H->open=0; printf("clear rc=%d closed=%d\n",rc,H->ms.closed);
